@@ -277,29 +277,124 @@ func c17LockFacts(fc *facts) {
 	metaOK := false
 	if i := c17LockIndex(fn, "metadataMu"); i >= 0 {
 		recv := c17Recv(fn)
-		loadAt, setAt := -1, -1
-		for j, st := range fn.Body.List {
-			if es, ok := st.(*ast.ExprStmt); ok && c17CallName(es.X) == recv+".loadFooter" {
-				loadAt = j
-			}
-			if as, ok := st.(*ast.AssignStmt); ok && len(as.Lhs) == 1 && len(as.Rhs) == 1 && selName(as.Lhs[0]) == recv+".metadataLoaded" && selName(as.Rhs[0]) == "true" {
-				setAt = j
-			}
+		// Linearise the body after `Lock; defer Unlock` along every path on which the flag is false on entry:
+		// conditions that test the flag are decided, any other branch is followed both ways. Events: "load" = the
+		// call statement <recv>.loadFooter(), "set" = the assignment <recv>.metadataLoaded = true. Every such path
+		// must be exactly load, set (so the flag is raised only after the footer was loaded, still under the lock).
+		type path struct {
+			ev   []string
+			done bool // ended by return
 		}
-		sets := 0
-		ast.Inspect(fn.Body, func(x ast.Node) bool {
-			if as, ok := x.(*ast.AssignStmt); ok {
-				for _, l := range as.Lhs {
-					if selName(l) == recv+".metadataLoaded" {
-						sets++
-					}
+		known := true
+		flagCond := func(e ast.Expr) (val, isFlag bool) { // value of e when the flag is false
+			if p, ok := e.(*ast.ParenExpr); ok {
+				e = p.X
+			}
+			if selName(e) == recv+".metadataLoaded" {
+				return false, true
+			}
+			if u, ok := e.(*ast.UnaryExpr); ok && u.Op == token.NOT {
+				x := u.X
+				if p, ok := x.(*ast.ParenExpr); ok {
+					x = p.X
+				}
+				if selName(x) == recv+".metadataLoaded" {
+					return true, true
 				}
 			}
-			return true
-		})
-		metaOK = i < loadAt && loadAt < setAt && sets == 1
+			return false, false
+		}
+		var walk func(stmts []ast.Stmt, in []path) []path
+		walk = func(stmts []ast.Stmt, in []path) []path {
+			cur := in
+			for _, st := range stmts {
+				var live, dead []path
+				for _, p := range cur {
+					if p.done {
+						dead = append(dead, p)
+					} else {
+						live = append(live, p)
+					}
+				}
+				if len(live) == 0 {
+					return cur
+				}
+				add := func(ev string) {
+					for k := range live {
+						live[k].ev = append(append([]string(nil), live[k].ev...), ev)
+					}
+				}
+				switch n := st.(type) {
+				case *ast.ExprStmt:
+					if c17CallName(n.X) == recv+".loadFooter" {
+						add("load")
+					} else if c17Mentions(n, "loadFooter") || c17Mentions(n, "metadataLoaded") {
+						known = false
+					}
+				case *ast.AssignStmt:
+					if len(n.Lhs) == 1 && len(n.Rhs) == 1 && selName(n.Lhs[0]) == recv+".metadataLoaded" {
+						if selName(n.Rhs[0]) == "true" {
+							add("set")
+						} else {
+							known = false
+						}
+					} else if c17Mentions(n, "loadFooter") || c17Mentions(n, "metadataLoaded") {
+						known = false
+					}
+				case *ast.ReturnStmt:
+					for k := range live {
+						live[k].done = true
+					}
+				case *ast.BlockStmt:
+					live = walk(n.List, live)
+				case *ast.IfStmt:
+					if n.Init != nil {
+						known = false
+					}
+					var els []ast.Stmt
+					switch e := n.Else.(type) {
+					case *ast.BlockStmt:
+						els = e.List
+					case *ast.IfStmt:
+						els = []ast.Stmt{e}
+					}
+					if v, isFlag := flagCond(n.Cond); isFlag {
+						if v {
+							live = walk(n.Body.List, live)
+						} else {
+							live = walk(els, live)
+						}
+					} else {
+						if c17Mentions(n.Cond, "metadataLoaded") || c17Mentions(n.Cond, "loadFooter") {
+							known = false
+						}
+						a := walk(n.Body.List, append([]path(nil), live...))
+						b := walk(els, append([]path(nil), live...))
+						live = append(a, b...)
+					}
+				default:
+					if c17Mentions(st, "loadFooter") || c17Mentions(st, "metadataLoaded") {
+						known = false // loops, switches, go/defer statements around the events: not linearised
+					}
+				}
+				cur = append(dead, live...)
+			}
+			return cur
+		}
+		paths := walk(fn.Body.List[i+2:], []path{{}})
+		metaOK = known && len(paths) > 0
+		for _, p := range paths {
+			if strings.Join(p.ev, ",") != "load,set" {
+				metaOK = false
+			}
+		}
+		for _, st := range fn.Body.List[:i] {
+			if c17Mentions(st, "loadFooter") || c17Mentions(st, "metadataLoaded") {
+				metaOK = false
+			}
+		}
 	}
-	fc.set("sstMetaLoadUnderLock", 1, metaOK, "ensureMetadataLoaded: Lock; defer Unlock; …; loadFooter(); metadataLoaded = true")
+	fc.set("sstMetaLoadUnderLock", 1, metaOK, "ensureMetadataLoaded: under `Lock; defer Unlock`, every path entered with the flag false is loadFooter() then metadataLoaded = true")
 
 	// wal.Reader: the Go type of the start marker (its arithmetic wraps at 2^bits)
 	rd := parseFile("dkv/wal/reader.go")
